@@ -237,4 +237,96 @@ ReloadViol(s, t) ==
     IF N(t) # N(s) THEN {"SameBlockCount"}
     ELSE V(HeaderMirror(t), "HeaderMirror") \cup V(\A k \in 1..N(s) : t.blocks[k].type = s.blocks[k].type, "TypesKept")
          \cup V(RefsStableBags(s, IdW(N(s)), t), "RefsStable")
+
+
+(* ---------------- well-formed graphs (the quantifier of C04; everything else is C15's fault space) ---------------- *)
+ShapeTypes == {"NiTriShape", "NiTriStrips", "BSTriShape", "BSDynamicTriShape", "BSSubIndexTriShape", "BSMeshLODTriShape"}
+\* role of reference slot j of a block, by its type (layout of GetChildIndices)
+RefRole(b, j) ==
+    IF IsNode(b) THEN (IF j = 1 THEN "ctrl" ELSE IF j = 2 THEN "coll" ELSE "child")
+    ELSE IF b.type \in ShapeTypes THEN (IF j = 1 THEN "ctrl" ELSE IF j = 2 THEN "coll" ELSE IF j = 3 THEN "data" ELSE "other")
+    ELSE IF b.type = "bhkCollisionObject" THEN "body"
+    ELSE IF b.type = "bhkRigidBody" THEN (IF j = 1 THEN "bhkshape" ELSE "constraint")
+    ELSE "other"
+RoleAccepts(role, ty) ==
+    CASE role = "child"      -> ty \in NodeTypes \cup ShapeTypes
+      [] role = "coll"       -> ty = "bhkCollisionObject"
+      [] role = "data"       -> ty = "NiTriShapeData"
+      [] role = "body"       -> ty = "bhkRigidBody"
+      [] role = "constraint" -> ty = "bhkHingeConstraint"
+      [] OTHER               -> FALSE
+WellTyped(s) ==
+    \A k \in 1..N(s) :
+        /\ \A j \in 1..Len(s.blocks[k].refs) :
+              LET r == s.blocks[k].refs[j] IN
+              r = NPOS \/ (InRange(s, r) /\ RoleAccepts(RefRole(s.blocks[k], j), s.blocks[r + 1].type))
+        /\ \A j \in 1..Len(s.blocks[k].ptrs) :
+              LET r == s.blocks[k].ptrs[j] IN
+              r = NPOS \/ (InRange(s, r) /\ (s.blocks[k].type = "bhkHingeConstraint" => s.blocks[r + 1].type = "bhkRigidBody"))
+\* no block reaches itself through owning references
+Acyclic(s) == \A k \in 1..N(s) : k \notin Reach(s, Succ(s, k))
+
+(* ---------------- C04: sorting and pruning of a default save ---------------- *)
+\* k (1-based) is a node that no node lists among its references: a root-level node
+Parentless(s, k) == IsNode(s.blocks[k]) /\ ~\E a \in 1..N(s) : a # k /\ IsNode(s.blocks[a]) /\ RefersTo(s.blocks[a], k - 1, FALSE)
+\* references of nodes may be re-ordered by the sorter (children first nodes, then shapes, ...): compare as bags;
+\* every other block keeps each reference in its slot
+\* "each node keeps the same set of children, none listed more often than before"
+NodeRefsKept(s, W, t, q, q2) ==
+    HasDangling(s, q) \/
+    LET A == Bag(LiveImage(s, W, q))
+        B == Bag(LiveNow(t, q2))
+    IN  DOMAIN A = DOMAIN B /\ \A x \in DOMAIN B : B[x] <= A[x]
+RefsStableSort(s, W, t) ==
+    \A k \in 1..N(s) : W[k] > 0 =>
+        /\ IF IsNode(s.blocks[k]) THEN NodeRefsKept(s, W, t, s.blocks[k].refs, t.blocks[W[k]].refs)
+                                  ELSE SlotStable(s, W, s.blocks[k].refs, t.blocks[W[k]].refs)
+        /\ BagStable(s, W, t, s.blocks[k].ptrs, t.blocks[W[k]].ptrs)
+\* no field value of a surviving block changes (content id of the payload with reference/string-index fields masked);
+\* a node whose child list lost a duplicate entry (allowed above) necessarily changes its child count
+ContentKept(s, W, t) ==
+    \A k \in 1..N(s) : W[k] > 0 =>
+        \/ (IsNode(s.blocks[k]) /\ Len(t.blocks[W[k]].refs) < Len(s.blocks[k].refs))
+        \/ (t.blocks[W[k]].cid = s.blocks[k].cid /\ t.blocks[W[k]].size = s.blocks[k].size)
+\* (string-table indices inside payloads are derived data that a save may renumber: they are not compared)
+SameBlock(a, b) == a.type = b.type /\ a.refs = b.refs /\ a.ptrs = b.ptrs /\ a.uid = b.uid /\ a.cid = b.cid /\ a.size = b.size
+SameBlocks(s, t) == N(s) = N(t) /\ \A k \in 1..N(s) : SameBlock(s.blocks[k], t.blocks[k])
+
+\* PrettySortBlocks / SetShapeOrder: a pure permutation
+SortViol(s, W, t, rootFirst) ==
+    LET c == CommonViol(s, W, t) IN
+    IF c # {} THEN c
+    ELSE V(Vanished(W) = {} /\ Fresh(W, t) = {}, "Permutation") \cup V(RefsStableSort(s, W, t), "RefsStable")
+         \cup V(ContentKept(s, W, t), "ContentKept")
+         \cup V(rootFirst => ((\E k \in 1..N(s) : Parentless(s, k)) =>
+                                 (N(t) > 0 /\ \E k \in 1..N(s) : Parentless(s, k) /\ W[k] = 1)), "RootFirst")
+         \cup V(s.unk => SameBlocks(s, t), "UnknownUntouched")
+\* sorting an already sorted model changes nothing
+IdempotentViol(s, W, t) == V(W = IdW(N(s)) /\ SameBlocks(s, t), "SortIdempotent")
+\* Optimize(): pruning only (bounds are recomputed before the pre snapshot, so content ids must not move)
+OptimizeViol(s, W, t) ==
+    LET c == PruneViol(s, W, t) IN
+    IF c # {} THEN c ELSE V(ContentKept(s, W, t), "ContentKept") \cup V(s.unk => SameBlocks(s, t), "UnknownUntouched")
+\* default save on the live model = prune, then sort
+SaveDefaultViol(s, W, t) ==
+    LET c == CommonViol(s, W, t) IN
+    IF c # {} THEN c
+    ELSE V(Fresh(W, t) = {}, "NoNewBlock") \cup V(RefsStableSort(s, W, t), "RefsStable") \cup V(ContentKept(s, W, t), "ContentKept")
+         \cup V(\A k \in Vanished(W) : ~ReferencedBySurvivor(s, W, k), "OnlyUnreferencedVanish")
+         \cup V(RootIndex(s) # NPOS => Reach(s, {RootIndex(s) + 1}) \cap Vanished(W) = {}, "ReachableKept")
+         \cup V((\E k \in 1..N(s) : Parentless(s, k) /\ W[k] > 0) =>
+                    (N(t) > 0 /\ \E k \in 1..N(s) : Parentless(s, k) /\ W[k] = 1), "RootFirst")
+         \cup V(s.unk => SameBlocks(s, t), "UnknownUntouched")
+\* the header tables of a written file describe the bytes that follow (independent reader; full statement: NifWire!WellFormed)
+FileWalks(f) ==
+    /\ f.parsed /\ f.walked /\ f.end + 8 = f.len /\ f.footer = <<1, 0>>
+    /\ Len(f.tidx) = f.nblocks /\ (f.hs => Len(f.sizes) = f.nblocks)
+    /\ \A k \in 1..Len(f.tidx) : f.tidx[k] < Len(f.types)
+\* the written file is the post state: same blocks, same content, reference fields = the model's references
+FileViol(t, f) ==
+    IF f.nblocks # N(t) \/ Len(f.blocks) # N(t) THEN {"FileBlockCount"}
+    ELSE V(\A k \in 1..N(t) : f.blocks[k].type = t.blocks[k].type, "FileTypes")
+         \cup V(\A k \in 1..N(t) : f.blocks[k].cid = t.blocks[k].cid /\ f.blocks[k].size = t.blocks[k].size, "FileContent")
+         \cup V(\A k \in 1..N(t) : f.blocks[k].wrefs = t.blocks[k].wrefs, "FileReferences")
+         \cup V(FileWalks(f), "FileWellFormed")
 =============================================================================
